@@ -1,4 +1,6 @@
-use crate::acme_proto::account::{register_account, update_account_contacts, update_account_key};
+use crate::acme_proto::account::{
+	register_account, register_account_opt, update_account_contacts, update_account_key,
+};
 use crate::endpoint::Endpoint;
 use crate::logs::HasLogger;
 use crate::storage::FileManager;
@@ -219,9 +221,10 @@ impl Account {
 						&endpoint.name
 					);
 					self.info(&msg);
-					register_account(endpoint, self).await?;
 					// The CA answers with the already existing account if it knows the
-					// key: new contacts have not been taken into account in that case.
+					// key: new contacts have not been taken into account in that case,
+					// and are not recorded as sent until their update is accepted.
+					register_account_opt(endpoint, self, !contacts_changed).await?;
 					if contacts_changed {
 						update_account_contacts(endpoint, self).await?;
 					}
